@@ -8,6 +8,11 @@ class.  Compared: the access-pattern strides, the StridePattern list handed to `
 wrapping that method), its return value, the final `snax_stream.streaming_region`, the number of warnings, and the
 model's `hwStream` / `schedStream` against the harness' own stream simulator / layout evaluation.
 
+Case kind "multi": a module with 2-3 streaming ops (one pass application, hence one pattern object / one accelerator
+context for all of them).  Every op is compared with the model run on THAT OP ALONE and judged by the oracle on its own:
+what an op gets must not depend on the ops converted before it (seeded fault C02-r2m1: streamers cached per accelerator
+name).  If the module as a whole is refused, the model must predict a refusal of the same class for one of its ops.
+
 The oracle is independent of the model: it enumerates the hardware byte stream of the final stride patterns with a
 stream simulator and the bytes of the scheduled elements by evaluating the real memref layout map (xDSL) on the
 real schedule pattern, and compares them step by step.
@@ -18,6 +23,7 @@ import io
 import itertools
 import json
 import os
+import re
 import tempfile
 import warnings
 
@@ -134,7 +140,8 @@ def memref_ty(shape, el, lay):
     return f"memref<{'x'.join(str(s) for s in shape)}x{el}{layout_text(lay)}>"
 
 
-def mlir(case):
+def mlir_parts(case):
+    """(function arguments, prelude lines, text of the streaming op) of a single-op case"""
     v = case["variant"]
     acc, _, nin, _, _ = VARIANTS[v]
     els = op_els(case)
@@ -156,13 +163,37 @@ def mlir(case):
         else:
             props = f'patterns = [{pats}], accelerator = "{acc}"'
             opname = "dart.operation"
-    fargs = ", ".join(f"%a{i} : {t}" for i, t in enumerate(tys))
-    return f'''func.func @f({fargs}) {{
-{zp}  "{opname}"({", ".join(f"%a{i}" for i in range(n))}) <{{{props}, operandSegmentSizes = array<i32: {nin}, {n - nin}>}}> ({{
+    fargs = [f"%a{i} : {t}" for i, t in enumerate(tys)]
+    optext = f'''  "{opname}"({", ".join(f"%a{i}" for i in range(n))}) <{{{props}, operandSegmentSizes = array<i32: {nin}, {n - nin}>}}> ({{
   {body(v, els)}
   }}) : ({", ".join(tys)}) -> ()
-  func.return
-}}'''
+'''
+    return fargs, zp, optext
+
+
+def mlir(case):
+    if case["kind"] == "multi":
+        return mlir_multi(case)
+    fargs, zp, optext = mlir_parts(case)
+    return f"func.func @f({', '.join(fargs)}) {{\n{zp}{optext}  func.return\n}}"
+
+
+def _suffix(text, i):
+    """rename every SSA value `%x` to `%x_i` (block labels and symbols are not touched)"""
+    return re.sub(r"%([A-Za-z_][A-Za-z0-9_]*)", lambda m: f"%{m.group(1)}_{i}", text)
+
+
+def mlir_multi(case):
+    """several streaming ops in ONE module: in one function (`same_func`) or in one function each"""
+    parts = [mlir_parts(sub) for sub in case["ops"]]
+    if case.get("same_func", True):
+        fargs, prel, ops = [], "", ""
+        for i, (fa, zp, op) in enumerate(parts):
+            fargs += [_suffix(a, i) for a in fa]
+            prel += _suffix(zp, i)
+            ops += _suffix(op, i)
+        return f"func.func @f({', '.join(fargs)}) {{\n{prel}{ops}  func.return\n}}"
+    return "\n".join(f"func.func @f{i}({', '.join(fa)}) {{\n{zp}{op}  func.return\n}}" for i, (fa, zp, op) in enumerate(parts))
 
 
 # ------------------------------------------------------------------------------------------------
@@ -203,6 +234,22 @@ def pat_json(p):
             "ss": [x.data for x in p.spatial_strides]}
 
 
+def _stream_op_index(op):
+    """position of `op` among the dart.access_pattern / snax_stream.streaming_region ops of its module (walk order =
+    textual order; converted ops are replaced in place)"""
+    from snaxc.dialects import dart, snax_stream
+    top = op
+    while top.parent_op() is not None:
+        top = top.parent_op()
+    k = 0
+    for o in top.walk():
+        if o is op:
+            return k
+        if isinstance(o, (dart.AccessPatternOp, snax_stream.StreamingRegionOp)):
+            k += 1
+    return None
+
+
 @contextlib.contextmanager
 def capture_set_stride_patterns(log):
     """wrap `set_stride_patterns` of the streamer accelerators: log (patterns handed in, patterns returned)"""
@@ -217,7 +264,7 @@ def capture_set_stride_patterns(log):
 
         def mk(orig):
             def wrapped(self, op, pats):
-                entry = {"handed": [pat_json(p) for p in pats]}
+                entry = {"handed": [pat_json(p) for p in pats], "index": _stream_op_index(op)}
                 log.append(entry)
                 r = orig(self, op, pats)
                 entry["custom"] = [pat_json(p) for p in r[2]]
@@ -410,7 +457,7 @@ def row_major(shape):
     return out
 
 
-def gen_axes(rng, variant):
+def gen_axes(rng, variant, max_tiles=4):
     """loop axes with their tiles: returns (ndims, bounds, per axis list of (schedule dim, coefficient), axis sizes);
     the template dims are the LAST schedule dims, one per template axis, coefficient 1"""
     tb = VARIANTS[variant][3]
@@ -422,7 +469,7 @@ def gen_axes(rng, variant):
         for _ in range(rng.choice([0, 1, 1, 2]) if a < naxes else rng.choice([1, 1, 2])):
             tiles.append(a)
     rng.shuffle(tiles)
-    while len(tiles) > 4:
+    while len(tiles) > max_tiles:
         tiles.pop()
     ntemp = len(tiles)
     bounds = [rng.choice([1, 2, 2, 3, 4, 4, 6]) for _ in tiles] + list(tb)
@@ -439,7 +486,7 @@ def gen_axes(rng, variant):
     return ndims, bounds, axes, size
 
 
-def gen_layout(rng, shape, tile_hint, mode, prio=None):
+def gen_layout(rng, shape, tile_hint, mode, prio=None, safe=False):
     """mode: none | strided | tsl | offset | unaligned; prio[j] = template axis of operand dim j (-1: temporal only):
     the dim with the highest template axis is made innermost most of the time (what the streamers need)"""
     rank = len(shape)
@@ -448,7 +495,7 @@ def gen_layout(rng, shape, tile_hint, mode, prio=None):
         return None
     if mode in ("strided", "offset"):
         order = sorted(range(rank), key=lambda j: prio[j])
-        if rng.random() < 0.12:
+        if not safe and rng.random() < 0.12:
             rng.shuffle(order)
         strides = [0] * rank
         s = 1
@@ -463,8 +510,8 @@ def gen_layout(rng, shape, tile_hint, mode, prio=None):
     tiles = []
     for j, n in enumerate(shape):
         t = tile_hint[j] if mode == "tsl" else rng.choice([3, 5, 6])
-        if n % t == 0 and n // t >= 1 and t > 1 and n > t and rng.random() < 0.8:
-            if mode == "tsl" and (n // t) % 2 == 0 and rng.random() < 0.3:
+        if n % t == 0 and n // t >= 1 and t > 1 and n > t and (safe or rng.random() < 0.8):
+            if mode == "tsl" and (n // t) % 2 == 0 and rng.random() < 0.3 and not safe:
                 tiles.append([n // t // 2, 2, t])
             else:
                 tiles.append([n // t, t])
@@ -473,7 +520,7 @@ def gen_layout(rng, shape, tile_hint, mode, prio=None):
     slots = [(j, d) for j, t in enumerate(tiles) for d in range(len(t))]
     # innermost tiles first (mostly), like set-memory-layout does
     slots.sort(key=lambda jd: (-(jd[1] - len(tiles[jd[0]])), -prio[jd[0]]))
-    if rng.random() < 0.12:
+    if not safe and rng.random() < 0.12:
         rng.shuffle(slots)
     lay = [[[0, b] for b in t] for t in tiles]
     s = 1
@@ -485,25 +532,28 @@ def gen_layout(rng, shape, tile_hint, mode, prio=None):
     return ["tsl", lay, 0]
 
 
-def gen_sched(rng, big=False):
-    variant = rng.choice(["alu", "alu", "alu", "xdma_add", "xdma_down", "xdma_up", "mm32", "mm32", "mm8", "gemm32",
-                          "gemm8", "simd"])
-    ndims, bounds, axes, size = gen_axes(rng, variant)
+def gen_sched(rng, big=False, variant=None, safe=False):
+    """safe: layouts that the streamers accept most of the time (used for the ops of multi-op modules)"""
+    variant = variant or rng.choice(["alu", "alu", "alu", "xdma_add", "xdma_down", "xdma_up", "mm32", "mm32", "mm8", "gemm32",
+                                     "gemm8", "simd"])
+    max_tiles = 4 if not safe else 1 if variant == "alu" else 2
+    ndims, bounds, axes, size = gen_axes(rng, variant, max_tiles)
     tb = VARIANTS[variant][3]
     rows_tpl = VARIANTS[variant][4]
     naxes = len(tb)
     case = {"kind": "sched", "variant": variant, "ndims": ndims, "bounds": bounds, "operands": []}
     if variant == "alu":
-        case["el"] = rng.choice(["i64", "i64", "i64", "i32", "i16", "i8"])
+        case["el"] = "i64" if safe else rng.choice(["i64", "i64", "i64", "i32", "i16", "i8"])
     els = op_els(case)
     r = rng.random()
-    flavour = "plain" if r < 0.86 else "offset" if r < 0.91 else "unaligned" if r < 0.95 else "bias"
+    flavour = "plain" if r < 0.86 or safe else "offset" if r < 0.91 else "unaligned" if r < 0.95 else "bias"
     bad_op = rng.randrange(len(els))
     for i, el in enumerate(els):
-        op_axes = list(rows_tpl[i]) + list(range(naxes, len(axes)))
-        if len(axes) > naxes and rng.random() < 0.3:
+        # element-wise operands: the purely temporal axes are the outer operand dims, the template axis is the last one
+        op_axes = list(range(naxes, len(axes))) + list(rows_tpl[i]) if naxes == 1 else list(rows_tpl[i])
+        if len(axes) > naxes and rng.random() < 0.3 and not safe:
             rng.shuffle(op_axes)
-        if len(op_axes) > 1 and naxes > 1 and rng.random() < 0.08:
+        if len(op_axes) > 1 and naxes > 1 and rng.random() < 0.08 and not safe:
             op_axes = op_axes[::-1]          # transposed operand
         A = []
         for a in op_axes:
@@ -514,6 +564,8 @@ def gen_sched(rng, big=False):
         shape = [size[a] for a in op_axes]
         b = [0] * len(shape)
         mode = rng.choice(["none", "none", "strided", "tsl", "tsl"])
+        if safe:
+            mode = "tsl" if VARIANTS[variant][0] == "snax_gemmx" else rng.choice(["none", "none", "tsl"])
         if flavour != "plain" and i == bad_op:
             if flavour == "bias":
                 j = rng.randrange(len(shape))
@@ -524,8 +576,29 @@ def gen_sched(rng, big=False):
                 mode = flavour
         hint = [tb[a] if a < naxes else rng.choice([2, 4]) for a in op_axes]
         prio = [a if a < naxes else -1 for a in op_axes]
-        case["operands"].append({"shape": shape, "A": A, "b": b, "layout": gen_layout(rng, shape, hint, mode, prio)})
+        case["operands"].append({"shape": shape, "A": A, "b": b, "layout": gen_layout(rng, shape, hint, mode, prio, safe)})
     return case
+
+
+GEMMX_VARIANTS = ["mm32", "mm8", "gemm32", "gemm8", "simd"]
+XDMA_VARIANTS = ["xdma_add", "xdma_down", "xdma_up"]
+
+
+def gen_multi(rng):
+    """a module with 2-3 streaming ops: the same accelerator with different variants / kernels / shapes in any order, or
+    different accelerators.  Every op is checked as if it were alone: what an op gets must not depend on its neighbours."""
+    n = rng.choice([2, 2, 2, 3])
+    r = rng.random()
+    if r < 0.5:
+        vs = rng.sample(GEMMX_VARIANTS, n) if rng.random() < 0.8 else [rng.choice(GEMMX_VARIANTS) for _ in range(n)]
+    elif r < 0.65:
+        vs = [rng.choice(XDMA_VARIANTS) for _ in range(n)]
+    elif r < 0.72:
+        vs = ["alu"] * n
+    else:
+        vs = [rng.choice(GEMMX_VARIANTS + XDMA_VARIANTS + ["alu", "alu"]) for _ in range(n)]
+    ops = [gen_sched(rng, variant=v, safe=rng.random() < 0.85) for v in vs]
+    return {"kind": "multi", "same_func": rng.random() < 0.7, "ops": ops}
 
 
 def gen_pipe(rng):
@@ -632,7 +705,10 @@ class C02(Prop):
     rule = ("three streams: (sched) dart.schedule ops built like dart-scheduler output (0-4 temporal tile dims, template dims of "
             "9 accelerator/kernel variants, element widths 8-64, layouts row-major / permuted+padded strided / tiled-strided, a few "
             "with offset, bias or unaligned tiles), (pipe) dart.operation through dart-scheduler [+ set-memory-layout], (access) "
-            "dart.access_pattern ops with arbitrary strides and bounds incl. every error branch; non-trivial = the conversion "
+            "dart.access_pattern ops with arbitrary strides and bounds incl. every error branch, (multi) modules with 2-3 "
+            "dart.schedule ops (same accelerator with different variants/kernels/shapes in any order, or different accelerators; one "
+            "function or one function per op), every op compared with the model run on that op alone and judged by the oracle on "
+            "its own (history independence); non-trivial = the conversion "
             "produced stride patterns for a case with at least one temporal loop, or raised")
 
     def cases(self, rng, tier):
@@ -643,6 +719,8 @@ class C02(Prop):
             yield gen_pipe(rng)
         for _ in range(260 if q else 6000):
             yield gen_access(rng)
+        for _ in range(140 if q else 2500):
+            yield gen_multi(rng)
         if not q:
             yield from self.exhaustive()
 
@@ -659,6 +737,11 @@ class C02(Prop):
 
     # -- real code ------------------------------------------------------------------------
     def impl(self, case):
+        if case["kind"] == "multi":
+            return self.impl_multi(case)
+        return self.impl_one(case)
+
+    def impl_one(self, case):
         from snaxc.dialects import dart, snax_stream
         from snaxc.ir.dart.affine_transform import AffineTransform
         out = {"stage": None, "raised": None, "sched": None, "access": None, "geo": None, "handed": None,
@@ -743,8 +826,140 @@ class C02(Prop):
         out["hwdig"] = [digest(hw_steps(p, d), True) for p, d in zip(out["handed"], out["geo"]["dims"])]
         return out
 
+    def impl_multi(self, case):
+        """several ops in one module through the real passes; per op the same record as `impl_one`.  The expected result
+        of an op must not depend on the other ops of the module."""
+        from snaxc.dialects import dart, snax_stream
+        from snaxc.ir.dart.affine_transform import AffineTransform
+        subs = case["ops"]
+        src = mlir_multi(case)
+        try:
+            mod0 = parse(src)
+            mod0.verify()
+        except Exception as e:
+            return {"invalid_input": f"{type(e).__name__}: {str(e)[:200]}"}
+        accs = []
+        for sub in subs:
+            a = VARIANTS[sub["variant"]][0]
+            if a not in accs:
+                accs.append(a)
+        cur = run_passes(src, ",".join(f"insert-accfg-op{{accelerator={a}}}" for a in accs))
+        outs = [{"stage": None, "raised": None, "sched": None, "access": None, "geo": None, "handed": None,
+                 "custom": None, "final": None, "nwarn": None} for _ in subs]
+        res = {"ops": outs, "stage": None, "raised": None, "nwarn": None}
+        m = parse(cur)
+        schs = find(m, dart.ScheduleOp)
+        assert len(schs) == len(subs)
+        for out, sch in zip(outs, schs):
+            ops = []
+            for pat, opnd in zip(sch.patterns.data, sch.operands):
+                T = AffineTransform.from_affine_map(pat.data)
+                lay, off = layout_data(opnd.type)
+                ops.append({"A": [[int(v) for v in row] for row in T.A.tolist()], "b": [int(v) for v in T.b.tolist()],
+                            "lay": lay, "off": off, "el": el_bytes_of(opnd.type), "shape": list(opnd.type.get_shape())})
+            out["sched"] = {"bounds": [x.value.data for x in sch.bounds.data], "ops": ops}
+        try:
+            cur = run_passes(cur, "dart-layout-resolution")
+        except Exception as e:
+            res["stage"], res["raised"] = "resolve", type(e).__name__
+            return res
+        m2 = parse(cur)
+        aps = find(m2, dart.AccessPatternOp)
+        assert len(aps) == len(subs)
+        for out, ap, sub in zip(outs, aps, subs):
+            strides = []
+            for pat in ap.patterns.data:
+                T = AffineTransform.from_affine_map(pat.data)
+                assert T.A.shape[0] == 1 and int(T.b[0]) == 0
+                strides.append([int(v) for v in T.A[0].tolist()])
+            out["access"] = {"bounds": [x.value.data for x in ap.bounds.data], "strides": strides,
+                             "els": [EL_BYTES[e] for e in op_els(sub)]}
+            try:
+                out["geo"] = geometry(ap)
+            except Exception as e:
+                out["stage"], out["raised"] = "geometry", type(e).__name__
+        if any(o["stage"] == "geometry" for o in outs):
+            res["stage"] = "geometry"
+            return res
+        log = []
+        try:
+            with warnings.catch_warnings(record=True) as w, capture_set_stride_patterns(log):
+                warnings.simplefilter("always")
+                txt = run_passes(cur, "convert-dart-to-snax-stream")
+            res["nwarn"] = sum(1 for x in w if "Non-contiguous access" in str(x.message))
+        except Exception as e:
+            res["stage"], res["raised"] = "convert", type(e).__name__
+            for ent in log:
+                if ent["index"] is not None and ent["index"] < len(outs):
+                    outs[ent["index"]]["handed"] = ent["handed"]
+                    outs[ent["index"]]["custom"] = ent.get("custom")
+            if type(e).__name__ == "VerifyException" and len(log) == len(subs) and all("custom" in x for x in log):
+                res["stage"] = "verify"
+            return res
+        m3 = parse(txt)
+        srs = find(m3, snax_stream.StreamingRegionOp)
+        assert len(srs) == len(subs) and len(log) == len(subs)
+        assert sorted(e["index"] for e in log) == list(range(len(subs)))
+        res["order"] = [e["index"] for e in log]
+        for ent in log:
+            out = outs[ent["index"]]
+            out["handed"], out["custom"] = ent["handed"], ent["custom"]
+        for out, sr in zip(outs, srs):
+            out["final"] = [pat_json(p) for p in sr.stride_patterns.data]
+            out["n_ptrs"] = len(sr.operands)
+            out["hwdig"] = [digest(hw_steps(p, d), True) for p, d in zip(out["handed"], out["geo"]["dims"])]
+        return res
+
+    def compare_multi(self, case, impl_out, model_out):
+        if "invalid_input" in impl_out:
+            return None
+        if impl_out["stage"] == "geometry":
+            return None
+        if impl_out["stage"] == "resolve":
+            return f"layout resolution raised {impl_out['raised']} (the model has no error path there)"
+        mos = model_out["ops"]
+        for i, (io, mo) in enumerate(zip(impl_out["ops"], mos)):
+            if "model_error" in mo:
+                return f"op {i}: model error: {mo['model_error']}"
+            if io["access"]["strides"] != mo["strides"]:
+                return f"op {i}: access-pattern strides: impl {io['access']['strides']} model {mo['strides']}"
+        if impl_out["stage"] in ("convert", "verify"):
+            # the module as a whole was refused; the model (every op on its own) must predict a refusal of some op
+            for i, (io, mo) in enumerate(zip(impl_out["ops"], mos)):
+                conv = mo["conv"]
+                for key in ("handed", "custom"):
+                    if io.get(key) is not None and conv.get(key) is not None and io[key] != conv[key]:
+                        return f"op {i} ({case['ops'][i]['variant']}): {key}: impl {io[key]} model (op alone) {conv[key]}"
+            if impl_out["stage"] == "convert":
+                want = [mo["conv"]["raised"] for mo in mos if "raised" in mo["conv"]]
+                if impl_out["raised"] not in want:
+                    return f"the module raised {impl_out['raised']} in the conversion; the ops on their own: {want or 'all convert'}"
+                return None
+            if all(mo["conv"].get("verified", False) for mo in mos if "raised" not in mo["conv"]) and \
+                    not any("raised" in mo["conv"] for mo in mos):
+                return "the verifier rejected a streaming region of the module; the model's verifier accepts every op on its own"
+            return None
+        for i, (sub, io, mo) in enumerate(zip(case["ops"], impl_out["ops"], mos)):
+            io = dict(io, nwarn=mo["conv"].get("nwarn") if "raised" not in mo["conv"] else None)   # warnings: compared in total
+            d = self.compare_one(sub, io, mo)
+            if d:
+                return f"op {i} ({sub['variant']}) of {[x['variant'] for x in case['ops']]} (conversion order {impl_out.get('order')}): {d}"
+        if impl_out["nwarn"] != sum(mo["conv"]["nwarn"] for mo in mos):
+            return f"warnings: impl {impl_out['nwarn']}, model {sum(mo['conv']['nwarn'] for mo in mos)}"
+        return None
+
     # -- model ------------------------------------------------------------------------------
     def requests(self, case, impl_out):
+        if case["kind"] == "multi":
+            if "invalid_input" in impl_out:
+                return []
+            reqs = []
+            for sub, io in zip(case["ops"], impl_out["ops"]):
+                reqs += self.requests_one(sub, io)
+            return reqs
+        return self.requests_one(case, impl_out)
+
+    def requests_one(self, case, impl_out):
         if "invalid_input" in impl_out or impl_out.get("stage") == "geometry":
             return []
         ronly = impl_out.get("stage") == "resolve" or impl_out.get("access") is None
@@ -770,6 +985,18 @@ class C02(Prop):
                                            "streamers": geo["streamers"] if geo else []}}]
 
     def model(self, case, answers, impl_out):
+        if case["kind"] == "multi":
+            if "invalid_input" in impl_out:
+                return impl_out
+            outs, k = [], 0
+            for sub, io in zip(case["ops"], impl_out["ops"]):
+                n = len(self.requests_one(sub, io))
+                outs.append(self.model_one(sub, answers[k:k + n], io))
+                k += n
+            return {"ops": outs}
+        return self.model_one(case, answers, impl_out)
+
+    def model_one(self, case, answers, impl_out):
         if "invalid_input" in impl_out:
             return impl_out
         if impl_out.get("stage") == "geometry":
@@ -788,6 +1015,13 @@ class C02(Prop):
         return out
 
     def compare(self, case, impl_out, model_out):
+        if model_out is None:
+            return None
+        if case["kind"] == "multi":
+            return self.compare_multi(case, impl_out, model_out)
+        return self.compare_one(case, impl_out, model_out)
+
+    def compare_one(self, case, impl_out, model_out):
         if model_out is None:
             return None
         if "model_error" in model_out:
@@ -905,6 +1139,18 @@ class C02(Prop):
 
     # -- the property on the real code's output ---------------------------------------------
     def oracle(self, case, impl_out):
+        if case["kind"] == "multi":
+            if "invalid_input" in impl_out:
+                return []
+            out = []
+            for i, (sub, io) in enumerate(zip(case["ops"], impl_out["ops"])):
+                for v in self.oracle_one(sub, io):
+                    out.append(dict(v, what=f"op {i} of {len(case['ops'])} ({sub['variant']}) in a module with "
+                                            f"{[x['variant'] for x in case['ops']]}: {v['what']}"))
+            return out
+        return self.oracle_one(case, impl_out)
+
+    def oracle_one(self, case, impl_out):
         if "invalid_input" in impl_out or impl_out.get("final") is None:
             return []          # the real code refused the input (exception): an outcome, not a violation
         geo = impl_out["geo"]
@@ -998,11 +1244,19 @@ class C02(Prop):
     def nontrivial(self, case, impl_out):
         if "invalid_input" in impl_out:
             return False
+        if case["kind"] == "multi":
+            return bool(impl_out.get("raised")) or all(o.get("final") for o in impl_out["ops"])
         if impl_out.get("raised"):
             return True
         return bool(impl_out.get("final")) and len(impl_out["access"]["bounds"]) > impl_out["geo"]["ntempl"]
 
     def stats_key(self, case, impl_out):
+        if case["kind"] == "multi":
+            accs = sorted({VARIANTS[x["variant"]][0] for x in case["ops"]})
+            k = f"multi:{len(case['ops'])}ops:{'+'.join(a[5:] for a in accs)}"
+            if "invalid_input" in impl_out:
+                return "multi:invalid_input"
+            return f"{k}:raised:{impl_out['raised']}" if impl_out.get("raised") else k
         k = f"{case['kind']}:{case['variant']}"
         if "invalid_input" in impl_out:
             return f"{case['kind']}:invalid_input"
@@ -1011,6 +1265,15 @@ class C02(Prop):
         return k
 
     def shrink(self, case):
+        if case["kind"] == "multi":
+            ops = case["ops"]
+            if len(ops) > 2:
+                for i in range(len(ops)):
+                    yield dict(case, ops=ops[:i] + ops[i + 1:])
+            for i, sub in enumerate(ops):
+                for cand in self.shrink(sub):
+                    yield dict(case, ops=ops[:i] + [cand] + ops[i + 1:])
+            return
         if case["kind"] == "access":
             n = len(case["bounds"])
             nt = n - len(VARIANTS[case["variant"]][3])
